@@ -614,6 +614,7 @@ func checkC01(p *Prog, rp *Report) {
 
 	seq := rp.Rule("C01-SEQ", "Compare composes epoch, upstream, revision lexicographically", 1)
 	checkCompareSeq(p, seq, impl)
+	compareLimitsRule(p, rp, "C01-LIMITS")
 	// sorting a list of versions orders it as dpkg does: the sort adapter is part of the ordering
 	srt := rp.Rule("C01-SORT", "sort adapter: Len = len, Swap exchanges i and j, Less(i,j) iff a[i] sorts before a[j] in dpkg's order", 3)
 	checkSortAdapter(p, srt)
@@ -932,6 +933,7 @@ func checkC02(p *Prog, rp *Report) {
 	}
 	seq := rp.Rule("C02-SEQ", "Compare composes the three comparisons lexicographically and symmetrically", 1)
 	checkCompareSeq(p, seq, impl)
+	compareLimitsRule(p, rp, "C02-LIMITS")
 	srt := rp.Rule("C02-SORT", "sort adapter: Len = len, Swap exchanges i and j, Less = Compare(a[i],a[j]) < 0", 3)
 	checkSortAdapter(p, srt)
 }
@@ -1077,4 +1079,38 @@ func retDesc(out []*State) string {
 		return "undecided: " + s.Msg
 	}
 	return fmt.Sprintf("%d runs", len(out))
+}
+
+func compareLimitsRule(p *Prog, rp *Report, id string) {
+	r := rp.Rule(id, "Compare on parts of several hundred bytes and on digit runs beyond 32 and 64 bits", 1)
+	pos := ""
+	if fn := p.Func("version", "Compare"); fn != nil {
+		pos = p.Pos(fn.Pos())
+	}
+	b := compareLimits(p)
+	switch {
+	case b.undecided != "":
+		r.undecided("version.Compare", pos, b.undecided)
+	case len(b.problems) > 0:
+		r.bad("version.Compare", pos, clip(b.problems[0], 500), b.problems)
+	default:
+		r.ok("version.Compare", pos, fmt.Sprintf("%d pairs (upstream parts and revisions of 300 bytes that differ in their last characters; numbers around 2^31, 2^32, 2^63, 2^64 and of 23 digits; time stamps): the sign is dpkg's", b.pairs))
+	}
+	// the same pairs where int has 32 bits (GOARCH=386 load, 32 bit int / uint arithmetic)
+	p386, err := Load(repoDir(), "386", activeOverlay, "./version/")
+	if err != nil {
+		rp.Errorf("386 load: %v", err)
+		return
+	}
+	wordBits = 32
+	b32 := compareLimits(p386)
+	wordBits = 64
+	switch {
+	case b32.undecided != "":
+		r.undecided("version.Compare(386)", pos, b32.undecided)
+	case len(b32.problems) > 0:
+		r.bad("version.Compare(386)", pos, "with 32 bit int: "+clip(b32.problems[0], 500), b32.problems)
+	default:
+		r.ok("version.Compare(386)", pos, fmt.Sprintf("%d pairs with 32 bit int and uint: the sign is dpkg's", b32.pairs))
+	}
 }
